@@ -8,28 +8,28 @@ import (
 
 // RevProfile holds the generator biases of one property profile.
 type RevProfile struct {
-	Name         string
-	LenW         []int // weights for chain length 1..5 (index 0 = length 1)
-	OCSPCountW   []int // weights for 0..3 responders
-	CRLCountW    []int // weights for 0..3 points
-	EntryW       []int // ValidateContext / Validate / CheckStatus
-	FetcherW     []int // real / real+cache / stub
-	ConfigW      []int // fault-free / net only / byzantine only / everything
-	PSrcFault    int   // percent of sources that deviate inside a fault-injecting run
-	HostileURL   int   // percent of sources with a hostile URL string (only when enabled)
-	CancelPct    int
-	PanicPct     int
-	BigBodyPct   int // oversize/endless bodies
-	InvalidChain int // percent of runs with a chain defect
-	CRLRich      bool
-	DeltaPct     int
-	TimestampPct int // percent of runs with purpose Timestamping
-	STPct        int // percent with a signing time
-	Schedules    int // number of alternative latency vectors (C12/C17)
-	MaxCallers   int
-	RacePanic    bool
-	CachePct     int
-	LatMax       int // upper bound of latencies in ms (0 = 3000)
+	Name          string
+	LenW          []int // weights for chain length 1..5 (index 0 = length 1)
+	OCSPCountW    []int // weights for 0..3 responders
+	CRLCountW     []int // weights for 0..3 points
+	EntryW        []int // ValidateContext / Validate / CheckStatus
+	FetcherW      []int // real / real+cache / stub
+	ConfigW       []int // fault-free / net only / byzantine only / everything
+	PSrcFault     int   // percent of sources that deviate inside a fault-injecting run
+	HostileURL    int   // percent of sources with a hostile URL string (only when enabled)
+	CancelPct     int
+	PanicPct      int
+	BigBodyPct    int // oversize/endless bodies
+	InvalidChain  int // percent of runs with a chain defect
+	CRLRich       bool
+	DeltaPct      int
+	TimestampPct  int // percent of runs with purpose Timestamping
+	STPct         int // percent with a signing time
+	Schedules     int // number of alternative latency vectors (C12/C17)
+	MaxCallers    int
+	RacePanic     bool
+	CachePct      int
+	LatMax        int  // upper bound of latencies in ms (0 = 3000)
 	Hostile       bool // C09: structure-aware deletions and odd shapes on top
 	TimeInvariant bool // C17: no time-dependent behaviours so that only the schedule varies
 }
@@ -59,6 +59,7 @@ type World struct {
 	ST          time.Time
 	SharedHost  bool
 	Reps        int // concurrent callers validating this same world (ValidateContext only)
+	TSADefect   int // C15: defect of the TSA chain (purpose timestamping)
 	// materialised
 	OtherCA    *Cert
 	Unrelated  *Key
